@@ -60,7 +60,7 @@ func init() { register(&referrersProp{}) }
 func (p *referrersProp) ID() string { return "C14" }
 
 func (p *referrersProp) Rule() string {
-	return "scenario = 1-3 subjects, up to 10 referrer manifests (image manifests, artifact manifests, indexes; some stored and indexed beforehand, optionally with duplicate and empty index entries), a multiset of push/delete operations split over 2-6 tasks that share one Repository against a registry without the Referrers API, SkipReferrersGC on/off, optionally failures (HTTP 500 / connection reset) on index GET/PUT/DELETE exchanges; every HTTP exchange and every hand-off of the merge protocol is a scheduling point; non-trivial = at least two operations on the same subject overlapped in time, or a fault fired; distinct = distinct (event-trace hash, final index state)"
+	return "scenario = 1-3 subjects, up to 10 referrer manifests (image manifests, artifact manifests, indexes; some stored and indexed beforehand, optionally with duplicate and empty index entries), a multiset of push/delete operations split over 2-6 tasks that share one Repository against a registry without the Referrers API, SkipReferrersGC on/off, optionally failures (HTTP 500, connection reset before or after the request took effect, a GET answer that breaks off half way) on index GET/PUT/DELETE exchanges; every HTTP exchange and every hand-off of the merge protocol is a scheduling point; non-trivial = at least two operations on the same subject overlapped in time, or a fault fired; distinct = distinct (event-trace hash, final index state)"
 }
 
 func (p *referrersProp) Components() map[string][]string {
@@ -153,7 +153,11 @@ func (p *referrersProp) Gen(r *Rand, tier string, idx int) any {
 	if r.Chance(0.35) && !rp.FlipProbe {
 		nf := r.Range(1, 2)
 		for i := 0; i < nf; i++ {
-			rp.Faults = append(rp.Faults, NetFault{Class: "manifest", Method: pick(r, []string{"GET", "PUT", "DELETE", "PUT"}), Occur: r.Range(1, 8), Kind: pick(r, []string{"status-500", "transport", "drop-after-apply"})})
+			f := NetFault{Class: "manifest", Method: pick(r, []string{"GET", "PUT", "DELETE", "PUT"}), Occur: r.Range(1, 8), Kind: pick(r, []string{"status-500", "transport", "drop-after-apply"})}
+			if f.Method == "GET" && r.Chance(0.4) {
+				f.Kind = "truncate-body" // the answer begins as announced and breaks off half way
+			}
+			rp.Faults = append(rp.Faults, f)
 		}
 	}
 	return rp
